@@ -6,6 +6,7 @@ CONSTANTS
   CEff <- EffF
   CCompass <- CompassF
   CApplicable <- ApplF
+  CHeight <- HeightF
   Powers = {0, 34}
   InitPower <- Pow3
   MaxNonce = 2
